@@ -33,6 +33,9 @@ def run(ctx):
     for i, force in enumerate([{"evlog": 1, "nprocs": 2, "perturb": 3}, {"evlog": 1, "nprocs": 3, "perturb": 2}, {"evlog": 1, "nprocs": 4, "perturb": 1},
                                {"evlog": 1, "nprocs": 8, "perturb": 3}]):
         recs += S.sweep(ctx, 110 if q else 1200, 40 if q else 140, precs="d", drivers=("gssv", "gssvx"), force=force, seed_offset=300 + i)
+        # the other three precision copies of the pipeline code (chain-like kinds keep the pipeline busy; complex entries include exactly real / imaginary ones)
+        recs += S.sweep(ctx, 60 if q else 500, 40 if q else 120, precs="zzcs", drivers=("gssv",), seed_offset=320 + i,
+                        force=dict(force, kind=["band", "tridiag", "chain", "grid", "forest", "random"]))
     evs = 0
     for r in recs:
         if r["status"] == "ok":
